@@ -1105,6 +1105,16 @@ fn cli_oracle(ctx: &Ctx, pool: &[String], n: usize, full: &[Cfg]) -> bool {
                 return;
             }
         };
+        // a project made of the formatter's own output that does not parse: clause (1) of the property, not a problem of
+        // the machinery
+        if expected.is_none() && p.error_in.is_none() && p.shape.ends_with("formatted-already") {
+            ctx.finding(Finding::new(
+                format!("fmt:cli:{}:formatted-text-does-not-parse", p.shape),
+                format!("a project in which some files hold the formatter's output no longer parses: {:?}", p.files),
+                cli_case_json(&p),
+            ));
+            return;
+        }
         // the injected error must be a parse error, and only then
         if expected.is_none() != p.error_in.is_some() {
             *machinery.lock().unwrap() = Some(format!(
